@@ -198,6 +198,17 @@ def faceParams (E : Env α) (depth : Depth) (fg bg : Nat × Nat × Nat) (lumaFg 
   | some a, some b => some (0 :: (a ++ b))
   | _, _ => none
 
+/-- `TerminalCommand::FaceModify` arm of `TTYEncoder::encode` for a modification that sets the three colours
+and, if `straight`, a straight underline (no reset, no flags): foreground, background, `4`, underline
+colour — in this order -/
+def faceModifyParams (E : Env α) (depth : Depth) (fg bg ul : Nat × Nat × Nat) (lumaFg lumaBg lumaUl : α)
+    (straight : Bool) : Option (List Nat) :=
+  match colorSgrEncode E depth .fg fg.1 fg.2.1 fg.2.2 lumaFg,
+        colorSgrEncode E depth .bg bg.1 bg.2.1 bg.2.2 lumaBg,
+        colorSgrEncode E depth .ul ul.1 ul.2.1 ul.2.2 lumaUl with
+  | some a, some b, some c => some (a ++ b ++ (if straight then [4] else []) ++ c)
+  | _, _, _ => none
+
 end generic
 
 /-! ## execution over scaled integers -/
@@ -265,6 +276,8 @@ def nonEmptyHex (cs : List Char) : String := if cs.isEmpty then "-" else String.
 * `sgr <true|8bit|gray> <fg|bg|ul> <r> <g> <b> <luma>` → SGR parameters joined by `;` (`-` = none);
   `luma` is the implementation's `f32` luma as the integer `3 · 2^scaleBits · luma`
 * `face <depth> <r g b of fg> <r g b of bg> <luma fg> <luma bg>` → parameters of the `Face` command
+* `fmod <depth> <fg r g b> <bg r g b> <underline r g b> <luma fg> <luma bg> <luma ul> <0|1>` → parameters of a
+  `FaceModify` setting the three colours (and a straight underline if `1`)
 * `idx8 <hex of r g b triples>` → hex of the palette indices
 * `row8 <r> <g> <b values to skip, hex>` → hex of the palette indices of `(r, g, b)` for every other `b`
 * `graylv <l0,l1,…>` → one digit per luma: the index chosen among the four levels
@@ -286,6 +299,11 @@ def handle : List String → String
     | some d, some [r, g, b, r', g', b'], some lf, some lb =>
       showParams (faceParams envInt d (r, g, b) (r', g', b') lf lb)
     | _, _, _, _ => "bad-op"
+  | ["fmod", d, r, g, b, r', g', b', r'', g'', b'', lf, lb, lu, st] =>
+    match parseDepth d, [r, g, b, r', g', b', r'', g'', b''].mapM (·.toNat?), lf.toInt?, lb.toInt?, lu.toInt? with
+    | some d, some [r, g, b, r', g', b', r'', g'', b''], some lf, some lb, some lu =>
+      showParams (faceModifyParams envInt d (r, g, b) (r', g', b') (r'', g'', b'') lf lb lu (st == "1"))
+    | _, _, _, _, _ => "bad-op"
   | ["idx8", h] =>
     match unhex h with
     | some bs => nonEmptyHex (idxTriples bs [])
